@@ -48,6 +48,11 @@ func VerifC09_Cadence() {
 		v := zz.Int("rate", len(rates))
 		zz.Assume(v >= 0)
 		rates = append(rates, v)
+		if len(rates) == 1 {
+			// the interval clock starts AFTER the first evaluation: otherwise the second evaluation could follow the
+			// first by less than one interval (ticks are counted from the ticker's creation)
+			zz.Assert("C09.ticker_armed_after_first_evaluation", zz.GhostLen("time.ticker") == 0)
+		}
 		// at the moment of every evaluation: as many evaluations as clock readings (1 immediate + 1 per received tick)
 		zz.Assert("C09.one_evaluation_per_received_tick", len(rates) == zz.ClockLogLen())
 		// and every earlier evaluation has already been handed to the pool
